@@ -1892,7 +1892,7 @@ func c12EOF(w *World, r *Result) {
 			for _, ins := range b.Instrs {
 				if c, ok := ins.(ssa.CallInstruction); ok {
 					if callee := c.Common().StaticCallee(); callee != nil && pkgOf(callee) == w.Pkgs["parser"].Types {
-						if callee.Name() == "eat" || consumes(callee, depth+1) {
+						if isTokenConsumer(callee) || consumes(callee, depth+1) {
 							res = true
 						}
 					}
@@ -1974,9 +1974,9 @@ func c12EOF(w *World, r *Result) {
 					switch x := ins.(type) {
 					case *ssa.Call:
 						callee := x.Call.StaticCallee()
-						if callee != nil && pkgOf(callee) == w.Pkgs["parser"].Types && callee.Name() != "peek" && (callee.Name() == "eat" || consumes(callee, 0)) {
+						if callee != nil && pkgOf(callee) == w.Pkgs["parser"].Types && !isTokenPeek(callee) && (isTokenConsumer(callee) || consumes(callee, 0)) {
 							// consuming the tested token itself is not "parsing on"
-							if callee.Name() == "eat" {
+							if isTokenConsumer(callee) {
 								continue
 							}
 							verdict = "parses on with " + callee.Name()
